@@ -8,7 +8,7 @@ use crate::{for_both, hx, Ctx, Tier};
 use blsful::*;
 use serde_json::json;
 
-pub const RULE: &str = "grid: edge scalars E (1,2,3,r-1,r-2,2^254,2^255-19 mod r,(r-1)/2,hash-derived,random, plus 9 keys whose compressed public key ends with NUL/LF/CR/space/quote/backslash/DEL/0x80/0xff) x message length classes x contents x 3 schemes x 2 group assignments, plus seeded random (key,len<=1024) cases in the thorough tier. Per case: sign twice (determinism), sign with the same scalar under the OTHER group assignment in between and sign again (history independence), verify, reference CoreVerify on the same bytes, then sk through {be,le,Vec,serde_bare,serde_json} must re-sign to the same bytes and sig' x pk' through {bytes,serde_bare,serde_json}^2 must verify. A case is distinct by (suite,scheme,sk,msg); non-trivial = signing succeeded and the pairing check was evaluated by both library and reference.";
+pub const RULE: &str = "grid: edge scalars E (1,2,3,r-1,r-2,2^254,2^255-19 mod r,(r-1)/2,hash-derived,random, plus 9 keys whose compressed public key ends with NUL/LF/CR/space/quote/backslash/DEL/0x80/0xff) x message length classes x contents x 3 schemes x 2 group assignments, plus seeded random (key,len<=1024) cases in the thorough tier. Per case: sign twice (determinism), sign with the same scalar under the OTHER group assignment in between and sign again (history independence), verify, reference CoreVerify on the same bytes, then sk through {be,le,Vec,serde_bare,serde_json} and through the curve-tagged SecretKeyEnum's {be,le,Vec,serde_bare,serde_json} must re-sign to the same bytes and sig' x pk' through {bytes,serde_bare,serde_json}^2 must verify. A case is distinct by (suite,scheme,sk,msg); non-trivial = signing succeeded and the pairing check was evaluated by both library and reference.";
 
 pub fn run(ctx: &mut Ctx) {
     for_both!(run_suite, ctx);
@@ -142,6 +142,26 @@ fn one_case<C: Suite>(ctx: &mut Ctx, cell: &str, ename: &str, scheme: Scheme, sk
         "json",
         serde_json::to_vec(&sk).ok().and_then(|b| serde_json::from_slice(&b).ok()),
     ));
+    // ... and through the curve-tagged wrapper's own encodings (same variant, same key)
+    {
+        let e = match C::CURVE {
+            Bls12381::G1 => SecretKeyEnum::G1(SecretKey(sc_from_rs::<Bls12381G1Impl>(sk_rs))),
+            Bls12381::G2 => SecretKeyEnum::G2(SecretKey(sc_from_rs::<Bls12381G2Impl>(sk_rs))),
+        };
+        let back = |e2: Option<SecretKeyEnum>| -> Option<SecretKey<C>> {
+            let be = match (e2?, C::CURVE) {
+                (SecretKeyEnum::G1(k), Bls12381::G1) => k.to_be_bytes(),
+                (SecretKeyEnum::G2(k), Bls12381::G2) => k.to_be_bytes(),
+                _ => return None,
+            };
+            ct_some(SecretKey::<C>::from_be_bytes(&be))
+        };
+        sks.push(("enum-be", back(ct_some(SecretKeyEnum::from_be_bytes(&e.to_be_bytes())))));
+        sks.push(("enum-le", back(ct_some(SecretKeyEnum::from_le_bytes(&e.to_le_bytes())))));
+        sks.push(("enum-vec", back(SecretKeyEnum::try_from(Vec::from(&e).as_slice()).ok())));
+        sks.push(("enum-bare", back(serde_bare::to_vec(&e).ok().and_then(|b| serde_bare::from_slice(&b).ok()))));
+        sks.push(("enum-json", back(serde_json::to_vec(&e).ok().and_then(|b| serde_json::from_slice(&b).ok()))));
+    }
     for (cn, s) in sks {
         let ok = match s {
             Some(s2) => s2.sign(ls, msg).ok().map(|x| Vec::from(&x)) == Some(sig1b.clone()),
